@@ -26,7 +26,7 @@
 (* Named deviations of bytex.ReaderX (TRUE = the design):                  *)
 (*   FullRead   Read(p) keeps reading the source until p is full           *)
 (*              (FALSE: one source Read, short count = "empty")            *)
-(*   ZeroLenOK  a zero-length body / ZReadN(0) succeeds, as in BufferX     *)
+(*   ZeroLenOK  a zero-length string body is read as "", as in BufferX     *)
 (*              (FALSE: rejected with ErrReadWrongNum)                     *)
 (***************************************************************************)
 EXTENDS Integers, Sequences, FiniteSets, TLC
@@ -129,10 +129,13 @@ Left   == avail - off
 
 (* "the same sequence of typed reads": the read matches the item at the    *)
 (* head; past the last item any read of at least one byte is in scope.     *)
+(* ReadN(0) / ZReadN(0) are argument validation, not decoding: BufferX and *)
+(* ReaderX may refuse or accept them as they like (a zero-length raw item  *)
+(* is read back with Read(p), len(p) = 0).                                 *)
 InScope(a) ==
   IF AtEnd THEN (a.t = "raw" => a.n >= 1)
   ELSE /\ HeadIt.t = a.t
-       /\ a.t = "raw" => (a.n = HeadIt.n /\ (a.via = "n" => a.n >= 1))
+       /\ a.t = "raw" => (a.n = HeadIt.n /\ (a.via \in {"n", "z"} => a.n >= 1))
 
 (* (IF, not \/: inside an action TLC explores both sides of a disjunction) *)
 Known(a) == phase = "r" /\ sync /\ InScope(a) /\ (IF AtEnd THEN TRUE ELSE ~HeadIt.dirty)
@@ -151,8 +154,8 @@ BReply(a) ==
 (* (k <= 0: no bound).  One request of n bytes collects:                   *)
 Collected(n, left, k) ==
   IF FullRead \/ k <= 0 THEN Min2(n, left) ELSE Min2(Min2(n, left), k)
-(* zlen: the request goes through ZReadN / a string body, which the        *)
-(* deviating reader refuses when n = 0                                     *)
+(* zlen: the request is a string body, which the deviating reader refuses  *)
+(* when n = 0                                                              *)
 StageOK(n, left, k, zlen) ==
   IF n = 0 THEN (zlen => ZeroLenOK) ELSE Collected(n, left, k) = n
 
@@ -165,7 +168,7 @@ XReply(a, k) ==
                  /\ StageOK(p, Left, k, FALSE)
                  /\ ~Over(a)
                  /\ StageOK(n - p, Left - p, k, TRUE)
-            ELSE StageOK(n, Left, k, a.t = "raw" /\ a.via = "z")
+            ELSE StageOK(n, Left, k, FALSE)
   IN IF ok THEN [ok |-> TRUE, v |-> HeadIt.tok, pan |-> 0] ELSE [ok |-> FALSE, v |-> <<>>, pan |-> 0]
 
 ReplyRd(a) ==
@@ -264,7 +267,7 @@ RdFor(it) ==
   IF it.t = "str" THEN {[op |-> "rd", t |-> "str", lim |-> l, n |-> 0, via |-> "-"] : l \in Lims \cup {-1}}
   ELSE IF it.t = "raw"
   THEN {[op |-> "rd", t |-> "raw", lim |-> -1, n |-> it.n, via |-> v] :
-            v \in IF it.n = 0 THEN {"z", "p"} ELSE {"n", "z", "p"}}
+            v \in IF it.n = 0 THEN {"p"} ELSE {"n", "z", "p"}}
   ELSE {[op |-> "rd", t |-> it.t, lim |-> -1, n |-> 0, via |-> "-"]}
 
 PastEnd == {[t |-> "u8", tok |-> <<0>>, n |-> 1], [t |-> "u32", tok |-> <<0>>, n |-> 4],
